@@ -110,7 +110,23 @@ fn seed_texts(o: &mut OptSpec, rng: &mut Rng, id: Id) {
         match s {
             Spec::Item(i) => {
                 if i.help.is_some() || rng.chance(1, 2) {
-                    i.help = Some(hostile_text(rng, &format!("HELP{}m", i.id)));
+                    let mut h = hostile_text(rng, &format!("HELP{}m", i.id));
+                    // a help written with the Doc API: styled fragments right next to each
+                    // other, with no plain text in between
+                    if rng.chance(1, 6) {
+                        let frag = |rng: &mut Rng, k: usize| match rng.below(3) {
+                            0 => format!("{{{{lit:--lit{}}}}}", k),
+                            1 => format!("{{{{emp: stressed{} words}}}}", k),
+                            _ => format!("{{{{inv: wrong{}}}}}", k),
+                        };
+                        h.push(' ');
+                        for k in 0..rng.range(2, 3) {
+                            let f = frag(rng, k);
+                            h.push_str(&f);
+                        }
+                        h.push_str(" tail");
+                    }
+                    i.help = Some(h);
                 }
                 if let Leaf::Arg { metavar, .. } | Leaf::Pos { metavar, .. } = &mut i.leaf {
                     if rng.chance(1, 5) {
